@@ -21,6 +21,7 @@ import (
 // part of the later alternative's set.
 
 const maxCondPaths = 8
+const maxPhiEdges = 8
 
 type yieldTarget struct {
 	ph   *ssa.Phi
@@ -72,7 +73,7 @@ func (f *FuncFacts) condPathsY(cond ssa.Value, want bool, guard bool, depth int,
 		}
 		return out, true
 	case *ssa.Phi:
-		if v.Parent() != f.fn || len(v.Edges) < 2 || len(v.Edges) > 4 {
+		if v.Parent() != f.fn || len(v.Edges) < 2 || len(v.Edges) > maxPhiEdges {
 			break
 		}
 		for i := range v.Edges {
@@ -208,8 +209,22 @@ func (c *Canon) boolTerm(v ssa.Value) (string, bool) {
 	if b, ok := v.Type().Underlying().(*types.Basic); !ok || b.Kind() != types.Bool {
 		return "", false
 	}
-	switch v.(type) {
-	case *ssa.Phi, *ssa.Call:
+	switch x := v.(type) {
+	case *ssa.Phi:
+		// only what condPaths really unfolds; anything else would be rendered through itself
+		if x.Parent() != c.owner.fn || len(x.Edges) < 2 || len(x.Edges) > maxPhiEdges {
+			return "", false
+		}
+		for i := range x.Edges {
+			if x.Block().Dominates(x.Block().Preds[i]) {
+				return "", false
+			}
+		}
+	case *ssa.Call:
+		hf := c.inlined(x.Common())
+		if hf == nil || hf.mode != rejNone || x.Common().Signature().Results().Len() != 1 {
+			return "", false
+		}
 	default:
 		return "", false
 	}
